@@ -559,11 +559,43 @@ ARG_CTYPE = {"i": ("int", "unsigned int", "tsk_id_t", "int32_t"), "I": ("unsigne
 BUILD_SIGN_OK = {("Tree_get_options", "i"): "tree option bits are all below 2^31", ("Tree_copy", "i"): "tree option bits are all below 2^31"}
 
 
+def _used_as_index(P, tu, fn, var, depth=0):
+    """Why `var` is an identifier / index in fn: range-compared, cast or passed as tsk_id_t, bounds-checked, or used as a subscript."""
+    bare = var.lstrip("*")
+    def is_var(n):
+        n = strip(n)
+        return n is not None and estr(n) in (var, bare, "(%s)" % var)
+    for x in walk(fn.body):
+        if x.k == "BinaryOperator" and x.op in ("<", "<=", ">", ">=") and (is_var(x.kids[0]) or is_var(x.kids[1])):
+            return "range-tested: `%s`" % " ".join(tu.src(x).split())[:50]
+        if x.k == "ArraySubscriptExpr" and is_var(x.kids[1]):
+            return "used as a subscript"
+        if x.k in ("CStyleCastExpr",) and (x.ty or "") == "tsk_id_t" and is_var(x.kids[0]):
+            return "cast to tsk_id_t"
+        if x.k == "CallExpr":
+            nm = callee(x) or ""
+            for j, a in enumerate(x.kids[1:]):
+                if is_var(a):
+                    if "check_bounds" in nm or "check_index" in nm:
+                        return "passed to %s" % nm
+                    cal = P.func(nm)
+                    if cal is not None and j < len(cal.params) and (cal.params[j].ty or "") in ("tsk_id_t",):
+                        return "passed as the tsk_id_t parameter %d of %s" % (j, nm)
+                    loc = tu.funcs.get(nm)
+                    if loc is not None and loc.body is not None and depth == 0 and j < len(loc.params) and loc.params[j].name:
+                        inner = _used_as_index(P, tu, loc, loc.params[j].name, depth + 1)
+                        if inner is not None:
+                            return "passed to %s, where it is %s" % (nm, inner)
+    return None
+
+
 def format_types(ctx, P, rule="FORMAT-TYPES", only=None):
     ctx.rule(rule, "Python<->C conversions keep width and signedness: every PyArg_Parse* format unit matches the C type of its "
                    "destination (`i`->int*, `I`->unsigned 32-bit, `n`->Py_ssize_t*, `d`->double*, O!/O& with object / converter), and "
                    "every Py_BuildValue unit matches the signedness of the value's own type before any cast (tsk_flags_t and sizes "
-                   "use unsigned units, so bit 31 of a flags word does not come back negative)")
+                   "use unsigned units, so bit 31 of a flags word does not come back negative); the unsigned argument units, which CPython "
+                   "converts without overflow checking, are used for option / size words only, never for a value that is then "
+                   "range-tested, cast to tsk_id_t or used as an index")
     tu = P.tus["module"]
     n = 0
     for fn in tu.funcs.values():
@@ -585,6 +617,21 @@ def format_types(ctx, P, rule="FORMAT-TYPES", only=None):
                 ok = ty in want or dty in want
                 n += 1
                 ctx.ob(rule, "%s|arg%d:%s" % (fn.name, i, u), ok, tu.loc(pc.call), "format `%s` fills a `%s`" % (u, ty))
+            # the unsigned units convert WITHOUT overflow checking (CPython: "I", "k", "K", "H", "B"): 2**32 + 1 becomes 1.  Fine for
+            # option words; an identifier or index parsed that way accepts huge values as small ones
+            for i, (u, ds) in enumerate(slots):
+                if u not in ("I", "k", "K", "H", "B") or not ds:
+                    continue
+                d = strip(ds[0])
+                if d is None:
+                    continue
+                var = estr(strip(d.kids[0])) if (d.k == "UnaryOperator" and d.op == "&") else "*" + estr(d)
+                why = _used_as_index(P, tu, fn, var)
+                n += 1
+                ctx.ob(rule, "%s|arg%d:%s|unchecked" % (fn.name, i, u), why is None, tu.loc(pc.call),
+                       "format `%s` (no overflow check) fills `%s`, an option / size word" % (u, var) if why is None else
+                       "format `%s` converts without overflow checking, and `%s` is an identifier / index (%s): a value of 2**32 + k is "
+                       "silently taken for k instead of being rejected" % (u, var, why))
             ctx.ob(rule, "%s|count" % fn.name, used == len(pc.dests), tu.loc(pc.call), "%d destinations for format %r" % (len(pc.dests), pc.fmt))
         k = 0
         for c in calls(fn.body):
